@@ -29,7 +29,7 @@ func crashUnits(prop, tier string) []Unit {
 			if tier == "thorough" {
 				budgets = []int{0, 1, 2}
 			}
-			if w.Name != "W6-multikey-atomicity" && w.Name != "W4-multikey-straddles-rotation" && w.Name != "W7-large-multikey" {
+			if w.Name != "W6-multikey-atomicity" && w.Name != "W4-multikey-straddles-rotation" && w.Name != "W7-large-multikey" && w.Name != "W8-two-committers" {
 				continue
 			}
 			if w.Name == "W7-large-multikey" {
